@@ -82,9 +82,11 @@ func VerifHarness_C09_MergeBlocks() {
 				arr.Values = append(arr.Values, next) // provenance tag
 				pts = append(pts, vC09Pt{t, next})
 			}
+			// the real encoder delta-codes its input in place: take the time range first
+			minT, maxT := arr.Timestamps[0], arr.Timestamps[n-1]
 			enc, err := EncodeIntegerArrayBlock(arr, nil)
 			vAssume(err == nil)
-			k.blocks = append(k.blocks, &block{key: k.key, typ: BlockInteger, minTime: arr.Timestamps[0], maxTime: arr.Timestamps[n-1],
+			k.blocks = append(k.blocks, &block{key: k.key, typ: BlockInteger, minTime: minT, maxTime: maxT,
 				b: enc, readMin: math.MaxInt64, readMax: math.MinInt64})
 			all = append(all, pts)
 		}
